@@ -285,8 +285,20 @@ func (r *Run) Finish() int {
 		path := filepath.Join(dir, hex.EncodeToString(h[:6])+".json")
 		payload, _ := json.MarshalIndent(map[string]interface{}{"property": r.ID, "key": v.Key, "desc": v.Desc, "case": v.Case}, "", " ")
 		_ = os.WriteFile(path, payload, 0o644)
+		// A report of the race detector is sound evidence whenever it appears, but the detector may
+		// stay silent on a re-execution (its per-thread event history is bounded, so the stack of the
+		// earlier access cannot always be restored and the report is then dropped): such findings are
+		// re-executed until the first reproduction, up to 30 times.
+		tries := 5
+		raceKey := strings.HasPrefix(v.Key, "data-race")
+		if raceKey {
+			tries = 30
+		}
 		repro := 0
-		for i := 0; i < 5; i++ {
+		for i := 0; i < tries; i++ {
+			if raceKey && repro > 0 {
+				break
+			}
 			cmd := exec.Command(self, r.ID, "--replay", path)
 			cmd.Env = append(os.Environ(), "VERIF_REPLAY_CHILD=1")
 			var out bytes.Buffer
@@ -303,7 +315,7 @@ func (r *Run) Finish() int {
 			r.Exhaustive = false
 			lines = append(lines, fmt.Sprintf("ANOMALY property=%s key=%q did not reproduce from %s (harness nondeterminism; not believed)", r.ID, v.Key, path))
 		default:
-			rec.Flaky = repro < 5
+			rec.Flaky = repro < 5 && !raceKey
 			if kf, ok := matchKnown(known, v.Key); ok {
 				rec.Known = true
 				lines = append(lines, fmt.Sprintf("KNOWN-FINDING: property=%s %s [key=%s]", r.ID, kf.What, v.Key))
